@@ -78,6 +78,10 @@ def gen_char_mutant(cs, text):
     return ''.join(cps)
 
 
+# code points on the boundary of the identifier definition (Unicode Other_ID_Start / Other_ID_Continue, XID exceptions, and a few
+# characters whose NFKC form or ID status is special): directed inputs for the lexer's start / continuation predicates
+ID_BOUNDARY = ['\u1885', '\u1886', '\u2118', '\u212e', '\u309b', '\u309c', '\u00b7', '\u0387', '\u1369', '\u1371', '\u19da', '\u037a', '\u0e33', '\ufe33', '\uff3f',
+               '\u203f', '\u2040', '\u00aa', '\u00ba', '\u2160', '\u3007', '\u0660', '\u0903', '\u093e', '\u1e9b', '\ufb01', '\U0001d7ce', '\U000e0100', '\u200c', '\u200d']
 UNI_RANGES = [(0x20, 0x7e), (0xa0, 0x24f), (0x300, 0x36f), (0x370, 0x3ff), (0x600, 0x6ff), (0x2000, 0x206f), (0x2028, 0x2029), (0x3000, 0x303f),
               (0x4e00, 0x4eff), (0xd7f0, 0xd7ff), (0xe000, 0xe0ff), (0xfe00, 0xfe0f), (0xfeff, 0xfeff), (0xfff0, 0xffff), (0x10000, 0x100ff),
               (0x1f600, 0x1f64f), (0xe0000, 0xe007f), (0x10ff00, 0x10ffff), (0x0, 0x1f), (0x7f, 0x9f)]
@@ -87,6 +91,12 @@ def gen_unicode(cs, maxn=40):
     n = cs.choice(maxn)
     out = []
     for _ in range(n):
+        if cs.bool(24):
+            out.append(cs.pick(ID_BOUNDARY))
+            continue
+        if cs.bool(12):
+            out.append(cs.pick(DICT))
+            continue
         lo, hi = cs.pick(UNI_RANGES)
         c = lo + cs.choice(hi - lo + 1)
         if 0xD800 <= c <= 0xDFFF:
@@ -163,3 +173,6 @@ FAMILIES = {
 NESTING_FAMILIES = {'open_parens', 'balanced_parens', 'balanced_brackets', 'mixed_brackets', 'braces_dict', 'indent_staircase', 'indent_staircase_no_eol',
                     'unary_chain', 'not_chain', 'lambda_nest', 'ifexp_nest', 'listcomp_nest', 'tabs_indent', 'walrus_nest', 'star_exprs', 'patterns_nest',
                     'dedent_to_unknown', 'power_chain'}
+
+EDIT_CHARS = EDIT_CHARS + ID_BOUNDARY
+DICT = DICT + ID_BOUNDARY + ['type X[(]] = int', 'type X', 'match x', '..', '.....']
